@@ -67,18 +67,31 @@ func (t *Tagger) createTag(repo *git.Repository, version string) error {
 	}
 	majorVersion := strings.Split(version, ".")[0]
 	for _, v := range []string{version, majorVersion} {
-		if err := repo.DeleteTag(v); err != nil {
-			logger.Warn().Err(err).Str("tag", v).Msg("failed to delete tag, might be okay.")
-		}
-		_, err = repo.CreateTag(v, hash.Hash(), &git.CreateTagOptions{
-			Tagger: &object.Signature{
+		// Overwrite the tag reference instead of deleting and re-creating it:
+		// deleting a tag that lives in packed-refs makes go-git rewrite that
+		// file and leave the tag's peeled ("^...") line behind, attached to
+		// whichever ref precedes it.
+		tag := &object.Tag{
+			Name: v,
+			Tagger: object.Signature{
 				Name:  "Landon Clipp",
 				Email: "11232769+LandonTClipp@users.noreply.github.com",
 				When:  time.Now(),
 			},
-			Message: v,
-		})
+			Message:    v + "\n",
+			TargetType: plumbing.CommitObject,
+			Target:     hash.Hash(),
+		}
+		obj := repo.Storer.NewEncodedObject()
+		if err := tag.Encode(obj); err != nil {
+			return errors.New(err)
+		}
+		tagHash, err := repo.Storer.SetEncodedObject(obj)
 		if err != nil {
+			return errors.New(err)
+		}
+		ref := plumbing.NewHashReference(plumbing.NewTagReferenceName(v), tagHash)
+		if err := repo.Storer.SetReference(ref); err != nil {
 			return errors.New(err)
 		}
 	}
